@@ -2,13 +2,6 @@
 use crate::util::*;
 use refmodel::linecol::{is_char_start, r_linecol};
 
-/// M7 (DESIGN.md 2.3): `core::str::from_utf8` -> refmodel::models::from_utf8 (plain validating
-/// loop; std's validator is trusted, its word-at-a-time fast path on symbolic slice bounds is what
-/// CBMC cannot finish).  `translate_position` only looks at Ok/Err and the `&str` itself.
-pub fn stub_from_utf8(v: &[u8]) -> Result<&str, std::str::Utf8Error> {
-    refmodel::models::from_utf8(v)
-}
-
 fn position_differential<const N: usize>() {
     let (buf, len) = any_utf8::<N>();
     let s = &buf[..len];
